@@ -58,6 +58,8 @@ type InstSpec struct {
 	PromoteNs  int64       `json:"promote_ns,omitempty"`
 	DemoteNs   int64       `json:"demote_ns,omitempty"`
 	NoDemoteCb bool        `json:"no_demote_cb,omitempty"`
+	// LogDelay: how long the application's Logger takes for a message (by code, see logCodes), in ns
+	LogDelay map[string]int64 `json:"log_delay,omitempty"`
 	// Script: API calls of this instance's owner, executed one after the other
 	// (each step waits After ns after the previous call returned).
 	Script []Action `json:"script,omitempty"`
